@@ -6,7 +6,7 @@ from .. import core, gen, compare, admit, interlib, exact as E
 from ..gen import Gen, tok
 from ..exact import add, sub, mul, neg, dot, cross
 
-TEMPLATES = ['random', 'translate', 'nested', 'shared-vertex', 'face-pyramid', 'coplanar', 'in-face-plane', 'self', 'cut', 'lattice-box', 'nested-touching']
+TEMPLATES = ['random', 'translate', 'nested', 'shared-vertex', 'face-pyramid', 'coplanar', 'in-face-plane', 'self', 'cut', 'lattice-box', 'nested-touching', 'shared-face-plane']
 
 
 def body_desc(G):
@@ -82,6 +82,47 @@ def make_case(G, i):
             lo2, hi2 = [l + d_ for l, d_ in zip(lo, sh)], [h + d_ for h, d_ in zip(hi, sh)]
         A, B = G.shuffled_body(box(lo, hi)), G.shuffled_body(box(lo2, hi2))
         return (A, B, tpl) if R.random() < 0.5 else (B, A, tpl)
+    if tpl == 'shared-face-plane':
+        # two bodies that share a face plane, their coplanar faces overlapping only partly (one body is the other translated within
+        # the plane of a face); half of the bodies have diagonal face normals such as (1,-1,0) -- the clipped face is found once from
+        # each body, with its own float noise, and the two copies must be recognised as one face
+        for _ in range(20):
+            fs, bk = G.special_body()
+            if R.random() < 0.8:
+                perm = R.sample(range(3), 3)
+                rows = [(1, 1, 0), (1, -1, 0), (0, 0, R.choice([1, 2]))]
+                M = [tuple(F(rows[j][perm.index(t)]) for t in range(3)) for j in range(3)]
+                base = [(x, y, z) for x in (0, 1) for y in (0, 2) for z in (0, 1)]
+                o = G.ipt(-2, 2)
+                pts = [add(o, add(add(mul(F(p[0]), M[0]), mul(F(p[1]), M[1])), mul(F(p[2]), M[2]))) for p in base]
+                fs = E.hull_faces(pts)
+            if fs:
+                break
+        def tied(f):
+            n = sorted((abs(c) for c in E.polygon_normal(f)), reverse=True)
+            return n[0] == n[1] != 0
+        tf = [f for f in fs if tied(f)]
+        f_ = R.choice(tf) if tf and R.random() < 0.8 else R.choice(fs)
+        if R.random() < 0.3:
+            t = add(mul(R.choice([F(1, 2), F(1, 4), F(-1, 2), F(3, 4)]), sub(f_[1], f_[0])), mul(R.choice([F(0), F(1, 4), F(-1, 4), F(1, 2)]), sub(f_[2], f_[1])))
+            gs = translate(fs, t)
+        else:
+            # ANOTHER body on the same side of that face plane: a few points in the plane (around the face) and one or two points of the
+            # first body's interior side; its face in the common plane overlaps the first body's face partly, in generic position
+            vs = E.vertices_of(('B', fs))
+            e1, e2 = sub(f_[1], f_[0]), sub(f_[2], f_[1])
+            gs = None
+            for _ in range(30):
+                inpl = [add(f_[0], add(mul(R.choice([F(-1, 2), F(0), F(1, 2), F(1), F(3, 2)]), e1), mul(R.choice([F(-1, 2), F(0), F(1, 2), F(1), F(3, 2)]), e2))) for _ in range(R.randint(3, 4))]
+                inner = [tuple(F(round(x * 2), 2) for x in G.comb(vs)) for _ in range(R.randint(1, 2))]
+                gs = E.hull_faces(inpl + inner)
+                if gs is not None and max(len(g) for g in gs) <= 6 and ok_size(('B', gs)):
+                    break
+                gs = None
+            if gs is None:
+                return make_case(G, i + 1)
+        A, B = G.shuffled_body(fs), G.shuffled_body(gs)
+        return (A, B, tpl) if R.random() < 0.5 else (B, A, tpl)
     # two bodies / polygons
     def one(k):
         if k == 'G':
@@ -94,6 +135,11 @@ def make_case(G, i):
         B0 = A0
     elif tpl == 'translate':
         t = (F(R.randint(-2, 2), 2), F(R.randint(-2, 2), 2), F(R.randint(-2, 2), 2))
+        if A0[0] == 'B' and R.random() < 0.5:
+            # translation WITHIN the plane of one face: the two bodies then share that face plane (and the opposite one of a prism) and
+            # the coplanar faces overlap only partly -- the clipped face is found once from each body
+            f_ = R.choice(A0[1])
+            t = add(mul(R.choice([F(1, 2), F(1, 4), F(-1, 2)]), sub(f_[1], f_[0])), mul(R.choice([F(0), F(1, 4), F(-1, 4), F(1, 2)]), sub(f_[2], f_[1])))
         if A0[0] == 'G':
             B0 = ('G', [add(p, t) for p in A0[1]])
         else:
